@@ -2007,3 +2007,60 @@ class Ob:
     def runtime_checked(self):
         # the program itself panics when these fail, so code after them may rely on them
         return self.kind not in ("AllocSize", "Contract", "Post", "Progress", "DeviceRange", "Invariant")
+
+
+def loop_progress(eng, b, local, direction):
+    """progress obligations for the loops whose head merges `local`: on every way back to the head the new value is
+    >= old + 1 (direction > 0) or <= old - 1. Returns [(Ob, (pred node, edge label))]."""
+    c = eng.ctx(b)
+    f = c.f
+    out = []
+    tin, tout = f.reaching(local)
+    heads = sorted({t[1] for t in tin.values() if t and t[0] == "phi"})
+    # loop heads: merge nodes that can reach themselves
+    found = 0
+    for m in heads:
+        seen, st = set(), [x for (x, _l) in b.nodes[m].succ]
+        while st:
+            x = st.pop()
+            if x in seen:
+                continue
+            seen.add(x)
+            st += [y for (y, _l) in b.nodes[x].succ]
+        if m not in seen:
+            continue
+        if all(pp in seen for (pp, _l) in b.nodes[m].pred):
+            continue     # a merge inside the loop body, not the loop head (no edge from outside)
+        phi = f.tok_value(local, ("phi", m), m)
+        ent = f.phi(phi.key())
+        if not ent:
+            continue
+        _, ops, preds = ent
+        # flatten merges inside the loop body: the values that can flow back are the non-phi leaves
+        leaves = []
+        visited = set()
+
+        def expand(o, p, lab):
+            if o.k == "phi" and o.extra[0] == local and o.key() != phi.key():
+                if o.key() in visited:
+                    return
+                visited.add(o.key())
+                e2 = f.phi(o.key())
+                if e2:
+                    for o2, (p2, l2) in zip(e2[1], e2[2]):
+                        expand(o2, p2, l2)
+                    return
+            leaves.append((o, p, lab))
+        for o, (p, lab) in zip(ops, preds):
+            if p not in seen:
+                continue     # entry edge of the loop
+            expand(o, p, lab)
+        for o, p, lab in leaves:
+            found += 1
+            ob = Ob(p, "Progress", b.where(p))
+            ob.desc = "`%s` strictly %s on the way back to the loop head: %s" % (b.local_name(local) or "_%d" % local, "advances" if direction > 0 else "decreases", o.show()[:70])
+            d = c.L(o) - c.L(phi)
+            ob.goals = [d - const(1)] if direction > 0 else [d.scale(-1) - const(1)]
+            ob_edge = (p, lab)
+            out.append((ob, ob_edge))
+    return out
